@@ -251,6 +251,14 @@ func c16RandHist(rng *rand.Rand, maxPk int, maxTransient int, terminal bool) []s
 }
 
 func c16Cfg(rng *rand.Rand) (string, []string) {
+	k, c := c16Cfg0(rng)
+	if rng.Intn(3) == 0 {
+		c[0] += fmt.Sprintf(",%d,%d", rng.Intn(2), rng.Intn(2))
+	}
+	return k, c
+}
+
+func c16Cfg0(rng *rand.Rand) (string, []string) {
 	switch r := rng.Intn(10); {
 	case r < 4:
 		return "plain", []string{fmt.Sprintf("cfg:plain,%d", rng.Intn(2))}
@@ -369,6 +377,8 @@ func (c16) Gen(rng *rand.Rand, tier string) []Case {
 				cfg[0] = "cfg:zc,0"
 			} else if kind == "concat" {
 				cfg[0] = "cfg:plain,0"
+			} else {
+				cfg[0] = "cfg:plain," + strings.Split(cfg[0], ",")[1]
 			}
 			var h []string
 			npk := 1001 + rng.Intn(6)
@@ -400,6 +410,8 @@ type c16Deliv struct {
 type c16Run struct {
 	kind      string
 	nocopy    bool
+	lazy      bool // Lazy / Pool decode options: exercised, the model's observables do not depend on them
+	pool      bool
 	items     [][]c16Item
 	gate      *c16Gate
 	ps        *gopacket.PacketSource
@@ -606,6 +618,16 @@ func (r *c16Run) drain(max int) bool {
 			last = time.Now()
 			continue
 		}
+		if r.gor() <= 0 && len(r.ch) == 0 {
+			// the goroutine is gone: if the channel was closed the next receive says so
+			if _, closed := r.tryRecv(); closed {
+				return true
+			}
+			if len(r.ch) == 0 {
+				return false
+			}
+			continue
+		}
 		if time.Since(last) > 4*time.Second {
 			r.stuck = true
 			return false
@@ -662,6 +684,8 @@ func (c16) Run(c Case) Result {
 			a := strings.Split(arg, ",")
 			r.kind = a[0]
 			r.nocopy = len(a) > 1 && a[1] == "1"
+			r.lazy = len(a) > 2 && a[2] == "1"
+			r.pool = len(a) > 3 && a[3] == "1"
 		case "p", "e":
 			if it, ok := c16ParseItem(op); ok {
 				r.items[len(r.items)-1] = append(r.items[len(r.items)-1], it)
@@ -687,6 +711,12 @@ func (c16) Run(c Case) Result {
 	var opts []gopacket.PacketSourceOption
 	if r.nocopy {
 		opts = append(opts, gopacket.WithNoCopy(true))
+	}
+	if r.lazy {
+		opts = append(opts, gopacket.WithLazy(true))
+	}
+	if r.pool {
+		opts = append(opts, gopacket.WithPool(true))
 	}
 	switch r.kind {
 	case "zc":
